@@ -115,6 +115,7 @@ impl Pool {
         let mut choices: Vec<u8> = Vec::new();
         let mut points: Vec<Point> = Vec::new();
         let mut last: Option<usize> = None;
+        let mut diverged = false;
         loop {
             // wait until every worker is parked or done
             let mut spins = 0u32;
@@ -150,8 +151,15 @@ impl Pool {
                 break;
             }
             let pos = choices.len();
-            let c = if pos < prefix.len() { prefix[pos] } else { 0 };
-            assert!((c as usize) < enabled.len(), "schedule replay diverged: choice {c} of {} at point {pos}", enabled.len());
+            let mut c = if pos < prefix.len() { prefix[pos] } else { 0 };
+            if (c as usize) >= enabled.len() {
+                // The same inputs under the same schedule prefix offered fewer choices than
+                // before: some lexer took a different number of iterations than in the run this
+                // prefix was derived from. The harness is deterministic (every decision is taken
+                // with all workers parked), so the lexers are not a function of their source.
+                diverged = true;
+                c = 0;
+            }
             let pick = enabled[c as usize];
             choices.push(c);
             points.push(Point { enabled: enabled.len() as u8, last_enabled });
@@ -164,7 +172,7 @@ impl Pool {
         for w in &self.workers[..k] {
             w.state.store(IDLE, Ordering::SeqCst);
         }
-        Execution { choices, points, results }
+        Execution { choices, points, results, diverged }
     }
 }
 
@@ -178,9 +186,12 @@ struct Execution {
     choices: Vec<u8>,
     points: Vec<Point>,
     results: Vec<u64>,
+    /// a replayed prefix did not fit the execution (see `run`)
+    diverged: bool,
 }
 
 pub struct SchedStats {
+    pub divergences: u64,
     /// nodes / edges of the explored schedule trees (distinct schedule prefixes)
     pub tree_nodes: u64,
     pub tree_edges: u64,
@@ -208,8 +219,12 @@ pub fn explore(pool: &Pool, inputs: &[&str], expected: &[u64], bound: Option<u32
         stats.tree_edges += new_edges;
         stats.tree_nodes += new_edges;
         stats.max_points = stats.max_points.max(x.points.len());
-        if x.results != expected && stats.bad.len() < 3 {
+        if (x.results != expected || x.diverged) && stats.bad.len() < 3 {
             stats.bad.push((inputs.iter().map(|s| (*s).to_string()).collect(), x.choices.clone()));
+        }
+        if x.diverged {
+            stats.divergences += 1;
+            continue; // the tree below this prefix is not well defined
         }
         // branch on every alternative at every point after the prefix
         let mut preempts = 0u32;
@@ -261,7 +276,7 @@ pub fn main(args: &[String]) {
         })
         .collect();
     let pool = Pool::new(3, strip);
-    let mut stats = SchedStats { tree_nodes: 0, tree_edges: 0, schedules: 0, points: 0, max_points: 0, bad: vec![], complete: true };
+    let mut stats = SchedStats { divergences: 0, tree_nodes: 0, tree_edges: 0, schedules: 0, points: 0, max_points: 0, bad: vec![], complete: true };
     let t0 = std::time::Instant::now();
     let cap: u64 = get("--cap").and_then(|s| s.parse().ok()).unwrap_or(if thorough { 30_000_000 } else { 600_000 });
     // determinism of the harness itself
@@ -319,6 +334,7 @@ pub fn main(args: &[String]) {
         "scheduling_points": stats.points,
         "max_points_in_one_execution": stats.max_points,
         "complete": stats.complete,
+        "replay_divergences": stats.divergences,
         "cap": cap,
         "replay_deterministic": det,
         "mismatches": stats.bad.iter().map(|(i, s)| serde_json::json!({"inputs": i, "schedule": s})).collect::<Vec<_>>(),
